@@ -407,6 +407,12 @@ func cmp(op Op, a, b *Term) *Term {
 		if a.Op == OZExt && b.Op == OConst && b.Val > mask(a.A[0].W) {
 			return True
 		}
+		// syntactic upper bound of the left side below the constant: (x & m), (x % c), (.. * c)
+		if b.Op == OConst {
+			if u, ok := upperBound(a); ok && u < b.Val {
+				return True
+			}
+		}
 	case OUle:
 		if a.Op == OConst && a.Val == 0 {
 			return True
@@ -417,8 +423,54 @@ func cmp(op Op, a, b *Term) *Term {
 		if a.Op == OZExt && b.Op == OConst && b.Val >= mask(a.A[0].W) {
 			return True
 		}
+		if b.Op == OConst {
+			if u, ok := upperBound(a); ok && u <= b.Val {
+				return True
+			}
+		}
+		// c <=u (x & m) with m < c
+		if a.Op == OConst && b.Op == OBAnd && b.A[1].Op == OConst && b.A[1].Val < a.Val {
+			return False
+		}
 	}
 	return mk(op, 0, []*Term{a, b}, 0, "", 0, 0)
+}
+
+// upperBound: a cheap syntactic unsigned upper bound (no wrap-around possible) of a bit-vector term.
+func upperBound(t *Term) (uint64, bool) {
+	switch t.Op {
+	case OConst:
+		return t.Val, true
+	case OBAnd:
+		if t.A[1].Op == OConst {
+			return t.A[1].Val, true
+		}
+		if t.A[0].Op == OConst {
+			return t.A[0].Val, true
+		}
+	case OURem:
+		if t.A[1].Op == OConst && t.A[1].Val > 0 {
+			return t.A[1].Val - 1, true
+		}
+	case OMul:
+		if t.A[1].Op == OConst {
+			if u, ok := upperBound(t.A[0]); ok {
+				c := t.A[1].Val
+				if c == 0 {
+					return 0, true
+				}
+				if u <= mask(t.W)/c {
+					return u * c, true
+				}
+			}
+		}
+	case OZExt:
+		if u, ok := upperBound(t.A[0]); ok {
+			return u, true
+		}
+		return mask(t.A[0].W), true
+	}
+	return 0, false
 }
 
 func Ult(a, b *Term) *Term { return cmp(OUlt, a, b) }
